@@ -607,7 +607,10 @@ fn gen_call(rng: &mut Rng) -> Call {
             5 => f64::from_bits(rng.next_u64() >> 12 >> rng.below(52)),                 // subnormal
             6..=8 => *rng.pick(&[1.0, 3.0, 5.0, 7.0, 0.75, 1.25, 6.0, 10.0, 1e3]),      // short mantissas: ties
             9 => f64::from_bits(((1023 + rng.range(0, 40) as u64 - 20) << 52) | (rng.next_u64() >> 12)),
-            _ => f64::from_bits(rng.next_u64() >> 1),
+            _ => {
+                let x = f64::from_bits(rng.next_u64() >> 1);
+                if x.is_nan() { 1.0 } else { x }
+            }
         }),
         90..=93 => {
             // jump: around 2^32 blocks (the counter's low word carries), around 2^64 (it wraps), anywhere
@@ -918,7 +921,8 @@ fn case(strat: i64, seed: u64, lens: &[usize], rng: &mut Rng, malformed: bool) -
 
 impl Prop for C07 {
     fn gen(&mut self, rng: &mut Rng, tier: Tier, _i: usize, _n: usize) -> Val {
-        if rng.chance(3, 10) {
+        // rng scripts: 30 % of the quick tier, 70 % of the thorough tier
+        if rng.chance(if tier == Tier::Thorough { 7 } else { 3 }, 10) {
             return gen_rng_case(rng);
         }
         let strat = rng.below(3) as i64;
